@@ -27,6 +27,23 @@ CHECKS += [
           "eq<=>same normalised fields, hash consistency, equal sums and +/- totals.",
   "note": "Field-wise integer model in the check itself; floats restricted to dyadic values."},
 ]
+CHECKS += [
+ {"id": "C01", "engine": "E1-shape",
+  "technique": "deviation-bounded exhaustive enumeration of recurrence rules (<= k non-default parts x 7 frequencies x boundary starts) against an independent filter-semantics model",
+  "text": "Every rule with at most k non-default parts (k=2 quick, 3 thorough; parts = interval, wkst, each BY-part with positive and negative members, "
+          "COUNT/UNTIL, start kind) for all 7 frequencies and boundary starts (leap day, 53-week year end, century, real MAXYEAR) is iterated on the real code "
+          "and its first 40/120 occurrences compared, as a list, with a brute-force model that tests each calendar day/instant against the RFC predicates. "
+          "Complete within the menus and bound; thorough covers 1.6M rules.",
+  "note": "Trusts refs/rrule_ref.py (week numbers cross-checked against date.isocalendar each run), CPython datetime/calendar, tz.tzutc/gettz for aware starts. "
+          "Horizon and period-budget seams bound never-matching rules; capped cases are counted, prefix-checked and never judged."},
+ {"id": "C13", "engine": "E1-shape",
+  "technique": "exhaustive enumeration of rule shapes x deviation-bounded RFC spelling features; round-trip and keyword-construction oracles",
+  "text": "str()/rrulestr() round trip over all C01 rule shapes with naive starts (k<=2) incl. years < 1000 and a non-Monday calendar.firstweekday configuration; "
+          "every rule shape x every combination of <= 2 (thorough 3) spelling deviations (part order, case, BYDAY/BYWEEKDAY, +1MO/1MO/MO(+1), DTSTART inline/kwarg, TZID via "
+          "gettz/mapping/callable, Z, VALUE parameter, folding incl. inside parameters, RRULE: prefix, forceset/compatible/cache/ignoretz/unfold) compared with the keyword-built rule; "
+          "multi-line RRULE/RDATE/EXRULE/EXDATE texts compared with set algebra; malformed menu must raise ValueError.",
+  "note": "Keyword-built rules are the oracle (their correctness is C01); dateutil.parser reads DTSTART/UNTIL values."},
+]
 _claimed = {c["id"] for c in CHECKS}
 NOT_APPLICABLE = [{"property_id": p, "reason": "check not built yet (work in progress; see DESIGN.md §5 build order)"}
                   for p in ALL if p not in _claimed]
